@@ -224,6 +224,18 @@ func errReaches(v ssa.Value, seen map[ssa.Value]bool) bool {
 			if isErrorType(x.Type()) || x.Type().String() == "error" {
 				return errReaches(x, seen)
 			}
+			// a helper that hands the error back among several results (`return failed(err)` with
+			// failed := func(err error) (T, U, error) { …; return nil, nil, err })
+			if _, isTuple := x.Type().(*types.Tuple); isTuple && x.Referrers() != nil {
+				for _, r := range *x.Referrers() {
+					if ex, ok := r.(*ssa.Extract); ok && isErrorType(ex.Type()) && !seen[ex] {
+						seen[ex] = true
+						if errReaches(ex, seen) {
+							return true
+						}
+					}
+				}
+			}
 		case *ssa.Store:
 			// parked in a field of a local struct (a `sticky error` helper whose methods were inlined here):
 			// it is propagated if that field of that very object is read again and the value read is
